@@ -47,7 +47,9 @@ func readOneSignature(r io.Reader) (*packet.Signature, error) {
 	if err != nil {
 		return nil, fmt.Errorf("parsing PGP signature: %w", err)
 	}
-	if n, _ := r.Read(make([]byte, 1)); n > 0 {
+	// anything behind the packet? A single Read may return (0, nil) without
+	// meaning that nothing is left, so read until a byte or an error arrives.
+	if n, _ := io.ReadFull(r, make([]byte, 1)); n > 0 {
 		return nil, errors.New("expected a single PGP signature")
 	}
 	sig, ok := pkt.(*packet.Signature)
